@@ -199,9 +199,25 @@ Section ArgComb.
             apply (wff_outs_ne _ (wf_funcs _ _ Hwf g Hg)).
     Qed.
 
-    Theorem names_accepted : aget kw o = None /\ no_unused p kw o /\ sufficient p kw o.
+    (* every non-output name that a needed function reads through an unbound parameter is one of the names *)
+    Lemma read_root_is_name f cur : In f (needed_top p kw o) -> In cur (pnames f) -> aget (bound f) cur = None ->
+      producer p cur = None -> In cur (akeys kw).
     Proof.
-      split; [apply acc_o_not_supplied|]. split.
+      intros Hf Hcur Eb Ep. assert (HfE : In f E).
+      { unfold needed_top in Hf. eapply needed_sub_E; eauto. now apply Conn_head. }
+      apply Hkw. exists cur. split.
+      + apply HF. split.
+        * exists f. split; [assumption|]. apply fpreds_In. exists cur. repeat split; auto.
+        * intros [e' [He' Ef]]. eapply producer_None; eauto; [eapply Conn_in_p; eauto|].
+          rewrite <- Ef. apply fid_in_outs. apply (wff_outs_ne _ (wf_funcs _ _ Hwf e' (Conn_in_p _ HC _ He'))).
+      + left. split; [|reflexivity]. apply node_func_root. now apply is_output_false.
+    Qed.
+
+    Theorem names_accepted : aget kw o = None /\ no_unused p kw o /\ sufficient p kw o
+      /\ (forall f cur, In f (needed_top p kw o) -> In cur (pnames f) -> aget (bound f) cur = None ->
+                        is_output p cur = false -> In cur (akeys kw)).
+    Proof.
+      split; [apply acc_o_not_supplied|]. split; [|split; [|intros f cur Hf Hcur Eb Eo; apply is_output_false in Eo; eapply read_root_is_name; eauto]].
       - intros k Hk. apply Hkw in Hk as [d [Hd Hcase]]. unfold param_names_needed. apply in_flat_map.
         pose proof Hd as Hd'. apply HF in Hd' as [[e [He Hp]] _].
         assert (Hen : In e (needed_top p kw o)) by (eapply E_sub_needed; eauto).
@@ -233,7 +249,9 @@ Section ArgComb.
 
   Definition Q (c : list str) : Prop :=
     forall kw, (forall k, In k (akeys kw) <-> In k c) ->
-               aget kw o = None /\ no_unused p kw o /\ sufficient p kw o.
+               aget kw o = None /\ no_unused p kw o /\ sufficient p kw o
+               /\ (forall f cur, In f (needed_top p kw o) -> In cur (pnames f) -> aget (bound f) cur = None ->
+                                 is_output p cur = false -> In cur (akeys kw)).
 
   Lemma state_Q E deps : Conn E -> Frontier E deps -> Q (names_of p E deps).
   Proof.
@@ -321,7 +339,7 @@ Theorem arg_combinations_accepted body pick p o cs c kw :
 Proof.
   intros Hwf Ho Hcs Hc Hk. destruct (wf_pipeline_elim p Hwf) as [ls Hw].
   apply is_output_true in Ho as [head Hhead].
-  destruct (arg_combinations_Q p ls Hw o head Hhead cs Hcs c Hc kw Hk) as [H1 [H2 H3]].
+  destruct (arg_combinations_Q p ls Hw o head Hhead cs Hcs c Hc kw Hk) as [H1 [H2 [H3 _]]].
   repeat split; try assumption. apply run_eq_eval; auto. apply is_output_true. eauto.
 Qed.
 
@@ -337,4 +355,17 @@ Proof.
   apply find_some in Ef as [Hin Hroot]. split.
   - intros k Hkc. unfold all_root in Hroot. rewrite forallb_forall in Hroot. apply negb_true_iff. auto.
   - eapply arg_combinations_accepted; eauto.
+Qed.
+
+(* with the keywords of an argument combination, every root argument (non-output name) that the evaluation reads
+   is supplied: no default of the pipeline is used *)
+Theorem arg_combinations_roots_supplied p o cs c kw :
+  wf_pipeline p -> is_output p o = true -> arg_combinations p o = Ok cs -> In c cs ->
+  (forall k, In k (akeys kw) <-> In k c) ->
+  forall f cur, In f (needed_top p kw o) -> In cur (pnames f) -> aget (bound f) cur = None ->
+                is_output p cur = false -> In cur (akeys kw).
+Proof.
+  intros Hwf Ho Hcs Hc Hk. destruct (wf_pipeline_elim p Hwf) as [ls Hw].
+  apply is_output_true in Ho as [head Hhead].
+  destruct (arg_combinations_Q p ls Hw o head Hhead cs Hcs c Hc kw Hk) as [_ [_ [_ H]]]. exact H.
 Qed.
